@@ -130,6 +130,11 @@ func VerifC15Reprobe() {
 	vapi.Check(c15Adps[1].status, "probing: the healthy endpoint stays in rotation")
 	p, n, _ := c15Selections(e, hosts)
 	vapi.Check(p == 0 && n == 0, "probing: a freshly blocked endpoint is neither served nor probed before 30 s have passed")
+	if vapi.Bool("latesuccess") {
+		// an older, slow call on the blocked endpoint completes successfully after the block
+		// (not a probe): it must not stop the endpoint from being probed later
+		a0.successAdd()
+	}
 	// 31 s later: exactly one probe
 	c15Pass(31)
 	c15Adps[1].sendAdd()
